@@ -67,7 +67,7 @@ func decodedVal(kind string, d *scion.Decoded) vt.M {
 	}
 	return vt.M{"kind": kind, "currinf": int(d.PathMeta.CurrINF), "currhf": int(d.PathMeta.CurrHF),
 		"seglen": []int{int(d.PathMeta.SegLen[0]), int(d.PathMeta.SegLen[1]), int(d.PathMeta.SegLen[2])},
-		"infos": infos, "hops": hops}
+		"infos":  infos, "hops": hops}
 }
 
 // pathVal extracts the field values of a path object of the real code.
